@@ -1,6 +1,7 @@
 package c04exec
 
 import (
+	"encoding/json"
 	"fmt"
 	"math/big"
 	"sort"
@@ -15,6 +16,7 @@ import (
 	"github.com/nspcc-dev/neo-go/pkg/io"
 	"github.com/nspcc-dev/neo-go/pkg/neotest"
 	"github.com/nspcc-dev/neo-go/pkg/neotest/chain"
+	"github.com/nspcc-dev/neo-go/pkg/smartcontract"
 	"github.com/nspcc-dev/neo-go/pkg/smartcontract/callflag"
 	"github.com/nspcc-dev/neo-go/pkg/util"
 	"github.com/nspcc-dev/neo-go/pkg/vm/emit"
@@ -64,8 +66,9 @@ func NewWorld(t testing.TB) *World {
 	sa, err := wallet.NewAccount()
 	require.NoError(t, err)
 	w.Sink = sa.ScriptHash()
-	tx := e.NewTx(t, []neotest.Signer{acc}, e.NativeHash(t, nativenames.Gas), "transfer",
+	tx := e.NewUnsignedTx(t, e.NativeHash(t, nativenames.Gas), "transfer",
 		acc.ScriptHash(), w.Payer.ScriptHash(), int64(2_000_000_0000_0000), nil)
+	e.SignTx(t, tx, 1_0000_0000, acc)
 	e.AddNewBlock(t, tx)
 	e.CheckHalt(t, tx.Hash())
 	w.Sync()
@@ -79,12 +82,19 @@ type Scenario struct {
 	Name string
 	Root []Stmt
 	Src  string
+	Pred *Pred
 
 	comp   *Compiled
 	hashes [NC]util.Uint160
 	ids    [NC]int32
 	script []byte
 	tx     *transaction.Transaction
+}
+
+// Pred is the outcome predicted by the implementation-shaped model for a TLC-generated tree.
+type Pred struct {
+	Halt  bool    `json:"halt"`
+	Notes [][]any `json:"notes"`
 }
 
 // Note is one observed notification: the emitting contract (index, or "gas" for the GAS token) and a number
@@ -98,16 +108,16 @@ type Note struct {
 
 // Outcome is the observed effect of one scenario transaction, read back from the real chain after the block.
 type Outcome struct {
-	Halt     bool             `json:"halt"`
-	Fault    string           `json:"fault"`
-	Notes    []Note           `json:"notes"`
-	Store    []map[string]int `json:"store"`  // per contract: key -> value (present keys only)
-	Bal      []int64          `json:"bal"`    // GAS of each scenario contract
-	FeePaid  int64            `json:"feepaid"`
-	Fee      int64            `json:"fee"`
-	Deployed []bool           `json:"deployed"`
-	XferLog   int             `json:"xferlog"`   // NEP-17 transfer log entries of the scenario contracts caused by this transaction
-	Delivered []Note          `json:"delivered"` // notifications of this transaction delivered to subscribers
+	Halt      bool             `json:"halt"`
+	Fault     string           `json:"fault"`
+	Notes     []Note           `json:"notes"`
+	Store     []map[string]int `json:"store"` // per contract: key -> value (present keys only)
+	Bal       []int64          `json:"bal"`   // GAS of each scenario contract
+	FeePaid   int64            `json:"feepaid"`
+	Fee       int64            `json:"fee"`
+	Deployed  []bool           `json:"deployed"`
+	XferLog   int              `json:"xferlog"`   // NEP-17 transfer log entries of the scenario contracts caused by this transaction
+	Delivered []Note           `json:"delivered"` // notifications of this transaction delivered to subscribers
 }
 
 func (w *World) who(s *Scenario, h util.Uint160) string {
@@ -193,7 +203,7 @@ func (w *World) Prepare(scs []*Scenario) error {
 				continue
 			}
 			s.hashes[i] = ct.Hash
-			txs = append(txs, w.E.NewDeployTx(t, ct, nil))
+			txs = append(txs, w.deployTx(ct))
 			emit.AppCall(fundW.BinWriter, nativehashes.GasToken, "transfer", callflag.All,
 				w.Val.ScriptHash(), ct.Hash, int64(fund), nil)
 			emit.Opcodes(fundW.BinWriter, opcode.ASSERT)
@@ -229,6 +239,22 @@ func (w *World) Prepare(scs []*Scenario) error {
 		}
 	}
 	return nil
+}
+
+// deployTx is neotest's NewDeployTx with an explicit system fee (no test invocation: the harness must not depend on
+// test executions leaving no trace - that is what is being checked).
+func (w *World) deployTx(c *neotest.Contract) *transaction.Transaction {
+	rawManifest, err := json.Marshal(c.Manifest)
+	require.NoError(w.t, err)
+	neb, err := c.NEF.Bytes()
+	require.NoError(w.t, err)
+	script, err := smartcontract.CreateCallScript(w.BC.ManagementContractHash(), "deploy", neb, rawManifest, nil)
+	require.NoError(w.t, err)
+	tx := transaction.New(script, 0)
+	tx.Nonce = neotest.Nonce()
+	tx.ValidUntilBlock = w.BC.BlockHeight() + 1
+	w.E.SignTx(w.t, tx, 30_0000_0000, w.Val)
+	return tx
 }
 
 // MakeTx builds and signs the scenario transaction (payer pays; the committee signs with a global scope so that
@@ -327,13 +353,16 @@ func (w *World) Observe(s *Scenario) Outcome {
 	return o
 }
 
-// RunBlock puts the transactions of the scenarios (in the given order) into one block.
-func (w *World) RunBlock(scs []*Scenario, extra ...*transaction.Transaction) {
+// RunBlock puts the transactions of the scenarios (in the given order) into one block; before is called after
+// the transactions are made and before the block is added.
+func (w *World) RunBlock(scs []*Scenario, before func()) {
 	var txs []*transaction.Transaction
 	for _, s := range scs {
 		txs = append(txs, w.MakeTx(s))
 	}
-	txs = append(txs, extra...)
+	if before != nil {
+		before()
+	}
 	w.E.AddNewBlock(w.t, txs...)
 	w.Sync()
 }
